@@ -41,7 +41,7 @@ def _scenario(draw, tier):
         acq=draw(st.sampled_from(["EI", "EI", "UCB", "MaxVar"])),
         optimizer=draw(st.sampled_from(["bfgs", "bfgs", "diffev"])),
         y_err=draw(st.booleans()), n_processes=draw(st.sampled_from([1, 1, 2, 3])),
-        x_form=draw(st.sampled_from(["2d", "2d", "1d", "list"])),
+        x_form=draw(st.sampled_from(["2d", "2d", "1d", "list"])), bounds_form=draw(st.sampled_from(["tuples", "tuples", "ndarray", "lists"])),
         newx_form=draw(st.sampled_from(["row", "flat", "scalar", "list"])),
         lo=draw(st.sampled_from([0.0, -2.0, 10.0])), width=draw(st.sampled_from([1.0, 4.0])),
         func=draw(st.sampled_from(["sin", "quad", "bump"])), kappa=draw(st.sampled_from([0.5, 2.0])),
@@ -199,8 +199,16 @@ def execute(sc):
         snaps = dict(x=_snap(x_in) if isinstance(x_in, np.ndarray) else [_snap(r) for r in x_in], y=_snap(y_in), e=_snap(e_in))
         acq = dict(EI=ExpectedImprovement, UCB=UpperConfidenceBound, MaxVar=MaxVariance)[sc["acq"]]
         acq = acq(kappa=sc["kappa"]) if sc["acq"] == "UCB" else acq
+        bf = sc.get("bounds_form", "tuples")
+        if bf == "ndarray":
+            b_in = np.array(bounds, dtype=float)
+        elif bf == "lists":
+            b_in = [list(b) for b in bounds]
+        else:
+            b_in = list(bounds)
+        b_snap = _snap(b_in) if isinstance(b_in, np.ndarray) else repr(b_in)
         try:
-            opt = lib_call("GpOptimiser()", GpOptimiser, x_in, y_in, bounds=bounds, y_err=e_in, acquisition=acq,
+            opt = lib_call("GpOptimiser()", GpOptimiser, x_in, y_in, bounds=b_in, y_err=e_in, acquisition=acq,
                            optimizer=sc["optimizer"], n_processes=int(sc.get("n_processes", 1)))
         except LibRaised as e:
             _viol(V, "op.raised", str(e))
@@ -209,6 +217,10 @@ def execute(sc):
 
         def inputs_ok(when):
             now = dict(x=_snap(x_in) if isinstance(x_in, np.ndarray) else [_snap(r) for r in x_in], y=_snap(y_in), e=_snap(e_in))
+            if (_snap(b_in) if isinstance(b_in, np.ndarray) else repr(b_in)) != b_snap:
+                _viol(V, "caller.arrays", "%s: the search bounds passed by the caller were modified: now %r, given %r"
+                      % (when, np.asarray(b_in).tolist(), [list(b) for b in bounds]))
+                return
             for k in now:
                 if now[k] != snaps[k]:
                     _viol(V, "caller.arrays", "%s: the caller's %s array passed to GpOptimiser was modified (shape/bytes changed: %r -> %r)"
